@@ -266,6 +266,28 @@ var checkQuantile = ev.Register("quantile", func(c *Case) ev.Outcome {
 			}
 		}
 	}
+	// the same backing array with new contents (a reused read buffer): the result must
+	// follow the data, not the address
+	if c.W == nil && n >= 2 {
+		reuse, rx, _ := mk(c.Xs, nil, false)
+		first := reuse.Quantile(0.5)
+		_ = first
+		mirrored := make([]float64, n)
+		for i, x := range c.Xs {
+			mirrored[i] = (asc[0] + asc[n-1]) - x
+		}
+		copy(rx, mirrored) // overwrite in place, same length
+		ascM := append([]float64(nil), mirrored...)
+		sort.Float64s(ascM)
+		for _, q := range []float64{0.5, 0.3, 0.9} {
+			want, gap := r8(ascM, q)
+			tol := 16*ref.Eps*absMax(ascM) + 16*ref.Eps*float64(n)*gap + 4*math.SmallestNonzeroFloat64
+			if got := reuse.Quantile(q); !(math.Abs(got-want) <= tol) {
+				return ev.Fail("after the sample's values were overwritten in place, Quantile(%v) = %.17g; type-8 estimate of the new data %.17g", q, got, want)
+			}
+		}
+		classes = append(classes, "buffer-reused")
+	}
 	// nothing was modified
 	if !bitsEq(gx, c.Xs) || !bitsEq(gw, c.W) || !bitsEq(px, permuteF(c.Xs, c.Perm)) || !bitsEq(pw, permuteF(c.W, c.Perm)) ||
 		!bitsEq(sx, asc) || !bitsEq(sw, ascW) || !bitsEq(ux, asc) || !bitsEq(uw, ascW) {
